@@ -6,6 +6,9 @@ TIE_DENY = [(f"TieDeny.{n}", "Relay.Tie.Deny") for n in
             ["allow_tie", "deny_tie", "isDenied_tie", "setNow_tie", "prune_tie", "getDenyList_tie", "getAllowList_tie", "coverage"]]
 TIE_TTLCODE = [(f"TieTtlCode.{n}", "Relay.Tie.TtlCode") for n in
                ["submit_tie", "exchange_tie", "exchange_unknown", "clean_tie", "deleteByBooking_tie", "count_tie", "good_after", "coverage"]]
-TIE_NOTE = ("TRANSLATOR TIE: internal/deny and internal/ttlcode are translated to Lean on every run and proved, for all states, arguments and map "
+TIE_CHANMAP = [(f"TieChanMap.{n}", "Relay.Tie.ChanMap") for n in
+               ["R_init", "add_step", "child_step", "parent_step_partial", "DeleteChild_step", "DeleteAndCloseChild_step", "DeleteParent_step",
+                "DeleteAndCloseParent_step_partial", "stepGen_sim", "run_sim", "history_tie", "history_closed_set", "closeAll_perm", "coverage"]]
+TIE_NOTE = ("TRANSLATOR TIE: internal/deny, internal/ttlcode and internal/chanmap are translated to Lean on every run and proved, for all states, arguments and map "
             "iteration orders, to be the store models this property's model builds on (Relay/Tie/*.lean). ")
 TIE_ASSUMPTION = "translator vocabulary (Relay/Base/GoLite.lean): int64 as unbounded Int, pointer receiver as threaded value, mutex calls are not data (lock discipline: C12)"
